@@ -252,6 +252,52 @@ def run(F, tier, res):
                     if dom_ok:
                         continue
                     allok = False
+                # [k .. len() - j] with k >= 1: the two bounds must not cross, i.e. len() >= k + j must be established by a comparison
+                # of the length with a constant (a starts_with and an ends_with test can be satisfied by the same single character)
+                if allok and len(ops) == 2:
+                    l0 = F.operand_literals(p, ops[0])
+                    r0 = F.trace(p, ops[0])
+                    r1 = F.trace(p, ops[1])
+                    k = max([v[1] for v in l0 if v[0] == 'int'] or [0]) if not any(rr[0] in ('param', 'call') for rr in r0) else 0
+                    subs = [rr for rr in r1 if (rr[0] == 'binop' and rr[1].startswith('Sub')) or (rr[0] == 'call' and rr[1].endswith('::saturating_sub'))]
+                    has_len = any(rr[0] == 'call' and rr[1].endswith('::len') for rr in r1)
+                    if k >= 1 and subs and has_len:
+                        j = max([v[1] for v in F.operand_literals(p, ops[1]) if v[0] == 'int'] or [0])
+                        need = k + j
+                        crossed_ok = False
+                        for (swb, op, arms, other) in Ru.switches(F, p):
+                            rs = F.trace(p, op)
+                            if not any(x[0] == 'binop' and x[1] in ('Gt', 'Ge', 'Lt', 'Le') for x in rs) or not any(x[0] == 'call' and x[1].endswith('::len') for x in rs):
+                                continue
+                            from .c20 import _find_binop_rvalue
+                            rv = _find_binop_rvalue(F, p, op)
+                            if rv is None:
+                                continue
+                            ll, lr = F.operand_literals(p, rv[2]), F.operand_literals(p, rv[3])
+                            len_left = any(x[0] == 'call' and x[1].endswith('::len') for x in F.trace(p, rv[2]))
+                            cs = [v[1] for v in (lr if len_left else ll) if v[0] == 'int']
+                            if not cs:
+                                continue
+                            cst = cs[0]
+                            opn = rv[1] if len_left else {'Gt': 'Lt', 'Ge': 'Le', 'Lt': 'Gt', 'Le': 'Ge'}[rv[1]]
+                            tt, ft = Ru.bool_edges(arms, other)
+                            if Ru.negations(F, p, op) % 2 == 1:
+                                tt, ft = ft, tt
+                            # edge on which len >= need holds
+                            good = []
+                            if opn == 'Ge' and cst >= need:
+                                good = [tt]
+                            elif opn == 'Gt' and cst + 1 >= need:
+                                good = [tt]
+                            elif opn == 'Lt' and cst >= need:
+                                good = [ft]
+                            elif opn == 'Le' and cst + 1 >= need:
+                                good = [ft]
+                            if any(e is not None and (Ru.edge_dominates(F, p, swb, e, i) or e == i) for e in good):
+                                crossed_ok = True
+                        if not crossed_ok:
+                            allok = False
+                            cross_note = ' (the bounds %d and len()-%d can cross: no dominating test that len() >= %d)' % (k, j, need)
                 if allok:
                     why = 'bounds are search/match positions, lengths, guarded constants, or compared with len()'
             if why:
@@ -263,6 +309,69 @@ def run(F, tier, res):
                 res.violate('P5', key, 'a string is sliced at a computed position that is neither a search/match position nor compared with the string\'s length: '
                             'an out-of-range (or non-boundary) index panics', where=F.span_of_call(c))
     res.rule('C03.P5', n5, 30, 'str/String slicing sites with range bounds on the input path: discharged by pattern, hand-proved table, or reported', discharged=ok5, samples=samples5[:8])
+    # ---------- NONEMPTY: the coordinate list of a parsed hunk header is never empty (it is indexed at [0] and [len-1] downstream)
+    nn = okn = 0
+    consumers = [q for q in F.fn_bodies if q.endswith('::initialize_hunk') or q.endswith('::write_line_of_code_with_optional_path_and_line_number')]
+    FIELD = 'line_numbers_and_hunk_lengths'
+    for p in sorted(F.fn_bodies):
+        if ' as std::clone::Clone>' in p or ' as std::default::Default>' in p:
+            continue
+        for i, b in enumerate(F.blocks(p)):
+            if b['cleanup']:
+                continue
+            for st in b['s']:
+                if st[0] == 'assign' and st[2][0] == 'agg' and st[2][1][0] == 'adt' and st[2][1][1].endswith('::ParsedHunkHeader'):
+                    nn += 1
+                    names = st[2][1][4]
+                    if FIELD not in names:
+                        res.anchor_missing('ParsedHunkHeader.' + FIELD)
+                        continue
+                    o = st[2][2][names.index(FIELD)]
+                    sig = _roots_sig(F, p, o)
+                    pl = o.get('move') or o.get('copy')
+
+                    def is_empty_of_same(rs):
+                        for r in rs:
+                            if r[0] == 'call' and r[1].endswith('::is_empty'):
+                                for a in r[4]['args'][:1]:
+                                    ra = F.trace(p, a)
+                                    if any(x[0] == 'local' and pl and x[1] == pl['l'] for x in ra) or (_roots_sig(F, p, a) & sig):
+                                        return True
+                        return False
+                    if Ru.guarded_by(F, p, i, is_empty_of_same, want_true=False):
+                        okn += 1
+                    else:
+                        res.violate('NONEMPTY', 'fn=%s;ctor' % p, 'a ParsedHunkHeader is constructed without a dominating test that its coordinate list is non-empty: '
+                                    'the hunk-header emitter indexes it at [0] and [len() - 1] (`@@ @@` would crash delta)', where=F.bodies[p]['mir']['span']['at'])
+    for q in consumers:
+        for (p, i, c) in Ru.call_sites(F, lambda r, cc: r == q):
+            nn += 1
+            k = 1
+            a = c['args'][k]
+            roots = F.trace(p, a)
+            from_hdr = any(r[0] in ('param', 'local') and r[2] and r[2][-1] == FIELD for r in roots)
+            one_elem = False
+            for blk in F.blocks(p):
+                for st in blk['s']:
+                    if st[0] == 'assign' and st[2][0] == 'agg' and st[2][1][0] == 'array' and len(st[2][2]) >= 1:
+                        # the array literal whose reference reaches this argument
+                        if any(r[0] == 'agg' and r[1][0] == 'array' for r in roots):
+                            one_elem = True
+            promoted = False
+            for r in roots:
+                if r[0] == 'const' and len(r) > 3:
+                    v = F.const_value(r[3], p)
+                    if v and v[0] == 'promoted':
+                        for blk in v[1]['blocks']:
+                            for st in blk['s']:
+                                if st[0] == 'assign' and st[2][0] == 'agg' and st[2][1][0] == 'array' and len(st[2][2]) >= 1:
+                                    promoted = True
+            if from_hdr or one_elem or promoted:
+                okn += 1
+            else:
+                res.violate('NONEMPTY', 'fn=%s;callee=%s' % (p, q.split('::')[-1]), 'the coordinate slice passed to %s is neither the list of a ParsedHunkHeader nor a literal array: '
+                            'it may be empty, and is indexed at [0] / [len() - 1]' % q.split('::')[-1], where=F.span_of_call(c))
+    res.rule('C03.NONEMPTY', nn, 5, 'constructors of ParsedHunkHeader (non-emptiness test dominates) and call sites of the two consumers that index the coordinate list', discharged=okn)
     # ---------- P4
     from . import _e1common as E
     from .. import extract
